@@ -83,15 +83,26 @@ struct Expander {
     Case c = cached_program;
     c.seed = seed;
     c.set_knob("sched_index", static_cast<int64_t>(j));
+    if (S > 1) c.set_knob("program_seed", static_cast<int64_t>(pseed & 0x7fffffffffffffffULL));
     Rng k = stream(seed, S_KNOBS);
     if (S == 1 || j == 0) {
       c.set_knob("strategy", ST_SEQUENTIAL);
+    } else if (j == 1) {
+      c.set_knob("strategy", ST_SEQUENTIAL);  // the other sequential schedule: threads take their turns in descending id order
+      c.set_knob("order_desc", 1);
     } else {
       const auto x = k.below(100);
-      if (x < 60) {
+      if (x < 30) {
         c.set_knob("strategy", ST_PB);
         const auto y = k.below(100);
         c.set_knob("sparam", y < 50 ? 1 : (y < 85 ? 2 : 3));
+      } else if (x < 60) {
+        // conflict-directed: preempt a thread next to an access of a location that another thread writes (recorded on the
+        // sequential schedule of the same program) and run that writer
+        c.set_knob("strategy", ST_CONFLICT);
+        const auto y = k.below(100);
+        c.set_knob("sparam", y < 55 ? 1 : (y < 90 ? 2 : 3));
+        c.set_knob("order_desc", k.chance(0.5) ? 1 : 0);
       } else if (x < 75) {
         c.set_knob("strategy", ST_PCT);
         c.set_knob("sparam", k.range(2, 4));
@@ -124,6 +135,12 @@ struct Expander {
     (void)r;
     eng->measured = thread_lengths();
     eng->has_measured = true;
+    if (seed % S != 1) {  // conflict points of the descending order as well
+      Case d = expand(pseed + 1);
+      set_die_context(pseed + 1, eng->name());
+      Result r2 = eng->run(d);
+      (void)r2;
+    }
   }
 };
 
@@ -297,6 +314,40 @@ int mode_run(int argc, char** argv) {
   pb1_flush();
   emit("STATS", stats_json(now_s() - t0, nontrivial, distinct.size(), known_hits));
   printf("DONE %llu\n", static_cast<unsigned long long>(done));
+  fflush(stdout);
+  _exit(0);
+}
+
+// -------------------------------------------------------------- sweep -----
+// Experiment mode: for each program, preempt once at EVERY recorded conflict point (both sides, both thread orders).
+int mode_sweep(int argc, char** argv) {
+  Engine* eng = make_engine(arg(argc, argv, "--engine"));
+  const uint64_t base = strtoull(arg(argc, argv, "--seed-base", "0").c_str(), nullptr, 10);
+  const uint64_t count = strtoull(arg(argc, argv, "--count", "10").c_str(), nullptr, 10);
+  const uint64_t W = strtoull(arg(argc, argv, "--workers", "1").c_str(), nullptr, 10);
+  const uint64_t w = strtoull(arg(argc, argv, "--worker-index", "0").c_str(), nullptr, 10);
+  Expander ex{eng};
+  const uint64_t S = eng->schedules_per_program();
+  uint64_t runs = 0;
+  for (uint64_t prog = 0; prog < count; prog++) {
+    if (prog % W != w) continue;
+    const uint64_t pseed = (base / S + prog) * S;
+    ex.ensure_measured(pseed + 2);
+    for (int o = 0; o < 2; o++) {
+      const size_t n = conflict_point_count(o);
+      for (size_t i = 0; i < n; i++)
+        for (int side = 0; side < 2; side++) {
+          Case c = ex.expand(pseed + 2);
+          c.set_knob("strategy", ST_CONFLICT); c.set_knob("sparam", 1); c.set_knob("order_desc", o);
+          c.set_knob("cidx", static_cast<int64_t>(i)); c.set_knob("cside", side);
+          set_die_context(pseed + 2, eng->name());
+          Result r = eng->run(c);
+          runs++;
+          if (!r.ok) { J j = result_json(eng, c, r); j.set("program", pseed).set("cidx", static_cast<uint64_t>(i)).set("cside", side).set("order", o); emit("RESULT", j); }
+        }
+    }
+  }
+  printf("DONE %llu\n", static_cast<unsigned long long>(runs));
   fflush(stdout);
   _exit(0);
 }
@@ -530,6 +581,7 @@ int main(int argc, char** argv) {
   const std::string mode = argv[1];
   if (mode == "run") return mode_run(argc, argv);
   if (mode == "one") return mode_one(argc, argv);
+  if (mode == "sweep") return mode_sweep(argc, argv);
   if (mode == "minimize") return mode_minimize(argc, argv);
   if (mode == "replay") return mode_replay(argc, argv);
   if (mode == "case") {
